@@ -647,5 +647,8 @@ PROPS["C02"]["rules"] = PROPS["C02"]["rules"] + [rules_dd.rule_link_written_in_p
 PROPS["C09"]["rules"] = PROPS["C09"]["rules"] + [rules_gr.rule_axis_guards_independent]
 PROPS["C09"]["explanation"] += " (AXISGUARD) in GRwriteimage a decision on one axis' start/stride is not nested inside a test on the other axis."
 
+PROPS["C11"]["rules"] = PROPS["C11"]["rules"] + [rules_ann.rule_rewrite_reuses_element]
+PROPS["C11"]["explanation"] += " (REUSEOLD) whether a rewritten annotation's old element is released depends only on the new/existing flag."
+
 NOT_APPLICABLE = {}
 
